@@ -59,7 +59,7 @@ impl Dec {
 
 #[derive(Clone, Debug, PartialEq, Serialize, Deserialize)]
 pub struct Cfg {
-    /// validators existing on chain, 1..=5
+    /// validators existing on chain, 1..=30 (mostly 1..=5)
     pub n_vals: u8,
     /// validators registered at deployment (the first n_reg), 1..=n_vals
     pub n_reg: u8,
@@ -118,7 +118,7 @@ const UNB_GRID: &[u64] = &[1, 10, 1000, 1000];
 /// Strategy over deployment configurations (DESIGN.md 3.2).
 pub fn cfg_strategy() -> BoxedStrategy<Cfg> {
     (
-        (1u8..=5, 0u8..5, 2u8..=6),
+        (prop_oneof![10 => 1u8..=5, 1 => 6u8..=16, 1 => 17u8..=30], any::<u8>(), 2u8..=6),
         dec_grid(FEE_GRID, ONE),
         dec_grid(THR_GRID, ONE),
         dec_grid(KEEPER_GRID, ONE),
@@ -128,7 +128,8 @@ pub fn cfg_strategy() -> BoxedStrategy<Cfg> {
     )
         .prop_map(|((n_vals, r, n_users), fee, threshold, keeper_rate, epoch, unbonding, price)| Cfg {
             n_vals,
-            n_reg: 1 + r % n_vals,
+            // a quarter of the deployments register every validator
+            n_reg: if r % 4 == 0 { n_vals } else { 1 + (r / 4) % n_vals },
             n_users,
             fee,
             threshold,
